@@ -99,11 +99,21 @@ func genOp(r *rand.Rand, m *model.Client, w opWeights, salt int) adapt.Op {
 				for _, ix := range t.Spec.Indexes {
 					have[ix.Name] = true
 				}
+				if r.Intn(8) == 0 {
+					// a request that only declares attributes (no index change): it must leave the table as it is, and
+					// a later request may create an index on the declared attribute without declaring it again
+					// (always with the type the attribute has everywhere else: re-typing a declared attribute is not generated)
+					defs := [][2]string{{mon.Pick(r, []string{"g", "s", "w"}), "S"}}
+					if r.Intn(3) == 0 {
+						defs = append(defs, [2]string{"v", "N"})
+					}
+					return adapt.Op{Kind: adapt.OpUpdateTable, Table: name, Defs: defs}
+				}
 				if r.Intn(2) == 0 {
 					for _, cand := range []adapt.IndexSpec{{Name: "gsi1", Hash: "g"}, {Name: "gsi2", Hash: "g", Range: "s"}, {Name: "gsi3", Hash: "s"}} {
 						if !have[cand.Name] {
 							c := cand
-							return adapt.Op{Kind: adapt.OpUpdateTable, Table: name, Chg: []adapt.IndexChange{{Create: &c}}}
+							return adapt.Op{Kind: adapt.OpUpdateTable, Table: name, Chg: []adapt.IndexChange{{Create: &c}}, NoDefs: r.Intn(3) == 0}
 						}
 					}
 				}
